@@ -10,9 +10,15 @@ MenuCentr2 == <<<<<<1, 0>>, 1, 1>>, <<<<0, 4>>, 4, 2>>, <<<<9, 0>>, 9, 3>>, <<<<
 MenuChord3 == <<<<<<2, 3, 6>>, 7, 0>>, <<<<1, 2, 2>>, 3, 0>>, <<<<0, 0, 1>>, 1, 1>>, <<<<4, 0, 3>>, 5, 0>>, <<<<2, -1, 2>>, 3, 0>>, <<<<1, 0, 0>>, 1, 1>>>>
 Menu(dim, centr) == IF centr THEN MenuCentr2 ELSE IF dim = 2 THEN MenuChord2 ELSE MenuChord3
 \* m steps selected by an affine index walk (a, b): distinct consecutive points by construction
-Steps(dim, centr, m, a, b) == LET M == Menu(dim, centr) IN [k \in 1..m |-> M[((a * k + b) % Len(M)) + 1]]
+\* a = 0 selects closed loops: the walk returns to its starting point (a data point is revisited non-consecutively)
+LoopChord == <<<<<<3, 4>>, 5, 0>>, <<<<2, 0>>, 2, 0>>, <<<<0, -2>>, 2, 0>>, <<<<-3, -4>>, 5, 0>>, <<<<-2, 0>>, 2, 0>>, <<<<0, 2>>, 2, 0>>>>
+LoopCentr == <<<<<<1, 0>>, 1, 1>>, <<<<0, 4>>, 4, 2>>, <<<<-1, 0>>, 1, 1>>, <<<<0, -4>>, 4, 2>>, <<<<9, 0>>, 9, 3>>, <<<<-9, 0>>, 9, 3>>>>
+Steps(dim, centr, m, a, b) ==
+  IF a = 0 THEN LET M == IF centr THEN LoopCentr ELSE LoopChord IN [k \in 1..m |-> M[IF ~centr /\ m = 4 /\ k > 2 THEN k + 1 ELSE k]]
+  ELSE LET M == Menu(dim, centr) IN [k \in 1..m |-> M[((a * k + b) % Len(M)) + 1]]
 DataSets == {[dim |-> d, centr |-> ce, m |-> m, a |-> a, b |-> b] :
                d \in {2, 3}, ce \in BOOLEAN, m \in 2..(MaxApproxPts - 1), a \in {1, 5}, b \in {0, 2}}
+            \cup {[dim |-> 2, centr |-> ce, m |-> m, a |-> 0, b |-> 0] : ce \in BOOLEAN, m \in {4, 6}}
 Init == c \in {ds \in DataSets : ds.centr => ds.dim = 2} /\ out = [op |-> "init"]
 Pts == CumPts([k \in 1..c.dim |-> 0], Steps(c.dim, c.centr, c.m, c.a, c.b))
 UK == ParamsOf(Steps(c.dim, c.centr, c.m, c.a, c.b), c.centr)
@@ -29,12 +35,13 @@ Approx(p, n) == /\ out.op = "init" /\ n >= p + 2 /\ n <= NP - 1
    /\ UNCHANGED c
 \* surfaces: tensor grids (x from the u-walk, (y, z) from a Pythagorean v-walk); parameters per direction as for curves
 SurfV == <<<<<<3, 4>>, 5, 0>>, <<<<0, 2>>, 2, 0>>, <<<<4, 3>>, 5, 0>>, <<<<1, 0>>, 1, 1>>>>
-InterpSurf(pu, pv, mv) == /\ out.op = "init" /\ c.dim = 2 /\ ~c.centr /\ NP <= 5 /\ pu <= NP - 1 /\ pv <= mv
-   /\ LET su == Steps(2, FALSE, c.m, c.a, c.b)
+SurfVCentr == <<<<<<1, 0>>, 1, 1>>, <<<<0, 4>>, 4, 2>>, <<<<9, 0>>, 9, 3>>, <<<<0, 1>>, 1, 1>>>>
+InterpSurf(pu, pv, mv) == /\ out.op = "init" /\ c.dim = 2 /\ c.a # 0 /\ NP <= 5 /\ pu <= NP - 1 /\ pv <= mv
+   /\ LET su == Steps(2, c.centr, c.m, c.a, c.b)
           xs == [k \in 1..NP |-> SumInts([i \in 1..(k - 1) |-> su[i][2]])]                  \* x = cumulative u-lengths
-          sv == [k \in 1..mv |-> SurfV[((k + c.b) % 4) + 1]]
+          sv == [k \in 1..mv |-> (IF c.centr THEN SurfVCentr ELSE SurfV)[((k + c.b) % 4) + 1]]
           yz == CumPts(<<0, 0>>, sv)
-          uk == ParamsOf(su, FALSE) vl == ParamsOf(sv, FALSE)
+          uk == ParamsOf(su, c.centr) vl == ParamsOf(sv, c.centr)
           Uu == AvgKnots(pu, NP, uk) Uv == AvgKnots(pv, mv + 1, vl)
       IN out' = [op |-> "interp_surf", pu |-> pu, pv |-> pv, su |-> NP, sv |-> mv + 1,
                  pts |-> [x \in 1..(NP * (mv + 1)) |-> LET iu == (x - 1) \div (mv + 1) iv == (x - 1) % (mv + 1) IN <<xs[iu + 1], yz[iv + 1][1], yz[iv + 1][2]>>],
